@@ -12,17 +12,24 @@
 
   The second half of the file is about the code the `#[request]` / `#[response]` macros generate
   (`Model/EndpointGlue.lean`): `request_roundtrip_partial`, `response_roundtrip_partial`,
-  `glue_no_panic`, the reference query-string codec, and the recorded findings F17–F19 as
-  full-strength statement / `_partial` theorem / machine-checked witness on the model.
+  `glue_no_panic`, the reference query-string codec, and the recorded findings G17–G19 as
+  full-strength statement / `_partial` theorem / machine-checked witness on the model. (G17–G19
+  were called F17–F19 in C16's files until the audit; renamed because DESIGN.md uses F17 for a
+  finding of property C17.) The last section brings the REAL endpoints under the hypotheses:
+  `Generated.C16.realReq` / `realResp` are the descriptions of every `#[request]` / `#[response]`
+  struct of the five API crates, re-read from the source text on every check;
+  `real_endpoints_under_model` decides `macroAccepts`, `testsPass`, the history conditions and the
+  header-name `Nodup` for each, `real_g17_endpoints` which of them have the shape of G17.
   What is NOT proven: that the model is the code (that is the differential check, see
   `props/C16.json`), and the libraries behind the parameters (`serde_json`, `serde_html_form`,
-  `http`) beyond the reference form codec.
+  `http`) beyond the reference form codec and the C01-based JSON codec `canonJson`.
 -/
 import RumaModel.Lemmas.Endpoint
 import RumaModel.Lemmas.EndpointUrl
 import RumaModel.Lemmas.EndpointXMatrix
 import RumaModel.Lemmas.EndpointNoPanic
 import RumaModel.Lemmas.EndpointGlueResp
+import RumaModel.Lemmas.EndpointGlueReal
 import RumaModel.Generated.C16
 namespace Ruma.Props.C16
 open Ruma Ruma.Endpoint Ruma.Spec.Endpoint Ruma.Glue
@@ -323,46 +330,54 @@ example : formSerialize [(bs "a b", bs "x&y=z"), (bs "", bs "100%"), (bs "k", [1
 
 /-! ### Requests -/
 
-/-- The property for requests, at full strength: for every endpoint description the macro accepts
-(and whose generated tests pass), every value made of wire forms of values, and every message the
+/-- The property for requests, at full strength: for every endpoint description within the model
+(`inModel`: no flattened body field) that the macro accepts (and whose generated tests pass), every value made of wire forms of values, and every message the
 encoder produces for it: the receiving side, after routing, reads back the value (and so its
 re-encoding is the identical message). **This does not hold** — see `request_statement_false`:
-findings F17 and F19 and descriptions with two header fields of one name are counterexamples. -/
+findings G17 and G19 and descriptions with two header fields of one name are counterexamples. -/
 def RequestRoundtripStatement : Prop :=
   ∀ (F : FormCodec) (J : JsonCodec) (H : HttpLib) (d : ReqDesc) (v : ReqVal) (base : Str)
     (sat : SendAccessToken) (vs : List Version) (m : HttpRequest),
     F.Lawful → J.Lawful → newOk d.history = true →
     (∀ p ∈ allPaths d.history, ∀ b ∈ p, b = 47 ∨ segmentUnsafe b = false) →
-    d.macroAccepts = true → d.testsPass = true → v.Canon d → v.Text F d →
+    d.inModel = true → d.macroAccepts = true → d.testsPass = true → v.Canon d → v.Text F d →
     tryIntoHttpRequest F J H d v base sat vs = .ok m →
     ∃ tmpl a, selectPath d.history vs = .ok tmpl ∧ deliver base tmpl m = some a
       ∧ tryFromHttpRequest F J d a = .ok v
 
 /-- What is proved. For EVERY implementation of the form, JSON and URI libraries satisfying the
-stated laws, EVERY endpoint description `d` — any mix of path, query / `query_all`, header
-(mandatory or `Option`), body, newtype-body and raw-body fields — that `#[request]` accepts
-(`macroAccepts`), whose generated tests pass (`testsPass`: path fields = placeholders, no body on
-`GET`, distinct field names) and whose history `VersionHistory::new` accepts with URI-safe paths,
+stated laws, EVERY endpoint description `d` expressible in the model (`hmodel`: any mix of path,
+query / `query_all`, header (mandatory or `Option`), body, newtype-body and raw-body fields, but NO
+body field with `#[serde(flatten)]` — such descriptions are outside the model) that `#[request]`
+accepts (`macroAccepts`), whose generated tests pass (`testsPass`: path fields = placeholders, no
+body on `GET`, distinct field names — these are `#[test]` functions the macro emits, run by ruma's
+own `cargo test`, not by the compiler) and whose history `VersionHistory::new` accepts (`hnew`)
+with paths made of `/` and URI-safe bytes (`hsafe`),
 EVERY value `v` whose field contents are wire forms of values of the fields' types (`Canon`) and
 Rust strings where they pass through text (`Text`), every base URL, access token and list of
 supported versions: if `try_into_http_request` produces the message `m`, then a server that routes
-`m` by the selected path template and hands it to `try_from_http_request` obtains exactly `v`, and
-re-encoding what it obtained gives exactly `m` again.
+`m` by the selected path template and hands it to `try_from_http_request` obtains exactly `v`.
+(The last conjunct — re-encoding what was obtained gives `m` again — adds nothing: it is the
+third conjunct plus the fact that the encoder is a function. It is kept because the property is
+worded that way. The direction that starts from an ARRIVED message — decode, re-encode, deliver,
+decode again — is not a theorem here: it needs the codecs to be idempotent and the form library to
+produce text, which are not among the laws assumed.)
 
 Excluded, spelled out:
  * `hhn`  — two header fields with the same header name (the second `insert` overwrites the first);
- * `hvis` — **F19**: a header value with a byte that is not visible ASCII / space / tab
+ * `hvis` — **G19**: a header value with a byte that is not visible ASCII / space / tab
             (`HeaderValue::from_str` accepts bytes ≥ 128, `to_str` on the receiving side refuses);
- * `himp` — **F17**: an `Option` header field that is `None` while the generated code sets that
+ * `himp` — **G17**: an `Option` header field that is `None` while the generated code sets that
             header itself (`Content-Type: application/json` whenever there is a body,
             `Authorization` when a token is sent): it is read back as `Some(..)`.
-Finding **F18** lives one level below (`QueryFieldTypesStatement`): `Some("")` in an
+Finding **G18** lives one level below (`QueryFieldTypesStatement`): `Some("")` in an
 `Option<String>` query field is not the wire form of a value, so `Canon` does not hold for it. -/
 theorem request_roundtrip_partial (F : FormCodec) (J : JsonCodec) (H : HttpLib) (d : ReqDesc)
     (v : ReqVal) (base : Str) (sat : SendAccessToken) (vs : List Version) (m : HttpRequest)
     (hF : F.Lawful) (hJ : J.Lawful)
     (hnew : newOk d.history = true)
     (hsafe : ∀ p ∈ allPaths d.history, ∀ b ∈ p, b = 47 ∨ segmentUnsafe b = false)
+    (_hmodel : d.inModel = true)
     (hmacro : d.macroAccepts = true) (htests : d.testsPass = true)
     (hcanon : v.Canon d) (htext : v.Text F d)
     (hhn : (d.headerFields.map (·.header)).Nodup)
@@ -381,8 +396,8 @@ theorem request_roundtrip_partial (F : FormCodec) (J : JsonCodec) (H : HttpLib) 
   cases hv'
   exact henc
 
-/-- No modelled panic site of the generated code is reachable: for a description whose generated
-tests pass, a history `VersionHistory::new` accepted with paths starting in `/`, and any value of
+/-- No modelled panic site of the generated code is reachable: for a description within the model
+whose generated tests pass, a history `VersionHistory::new` accepted with paths starting in `/`, and any value of
 the struct, `try_into_http_request` ends in a message or in an `IntoHttpError` — never in one of
 the `expect`/`assert!`/`unreachable!` of `make_endpoint_url` / `select_path`. (The receiving side
 and both response conversions contain no `unwrap`/`expect`/index at all: their models have no
@@ -390,6 +405,7 @@ and both response conversions contain no `unwrap`/`expect`/index at all: their m
 theorem glue_no_panic (F : FormCodec) (J : JsonCodec) (H : HttpLib) (d : ReqDesc) (v : ReqVal)
     (base : Str) (sat : SendAccessToken) (vs : List Version)
     (hnew : newOk d.history = true) (hslash : ∀ p ∈ allPaths d.history, p.head? = some 47)
+    (_hmodel : d.inModel = true)
     (htests : d.testsPass = true) (hshape : v.shapeOk d = true) :
     tryIntoHttpRequest F J H d v base sat vs ≠ .panic
     ∧ tryIntoHttpRequest F J H d v base sat vs ≠ .illTyped := by
@@ -416,9 +432,11 @@ theorem method_rule (F : FormCodec) (J : JsonCodec) (d : ReqDesc) (a : Arrived) 
     unfold tryFromHttpRequest
     simp [hg]
 
-/-- The empty-body rule: a request without any body bytes is read exactly like the body `{}`. -/
+/-- The empty-body rule: by an endpoint WITHOUT a raw body field (`hraw`; with one, the body bytes
+are the field's value and nothing is substituted), a request without any body bytes is read
+exactly like the body `{}`. -/
 theorem empty_body_is_empty_object (F : FormCodec) (J : JsonCodec) (d : ReqDesc) (a : Arrived)
-    (hraw : d.hasRawBody = false) :
+    (_hmodel : d.inModel = true) (hraw : d.hasRawBody = false) :
     tryFromHttpRequest F J d { a with body := [] }
       = tryFromHttpRequest F J d { a with body := bs "{}" } := by
   unfold tryFromHttpRequest decodeJsonBody bodyOrEmptyObject
@@ -440,57 +458,57 @@ theorem noJson_lawful : noJson.Lawful where
 def anyUri : HttpLib := ⟨fun _ => true⟩
 
 /-- `media::create_content`-like: raw body and an optional `Content-Type` header field. -/
-def dF17 : ReqDesc :=
+def dG17 : ReqDesc :=
   ⟨bs "POST", .none, ⟨[bs "/_synthetic/upload"], [], none, none⟩,
    [⟨bs "content_type", .header contentType true Ty.str⟩, ⟨bs "file", .rawBody⟩]⟩
 
-/-- **F17 on the model.** `content_type: None` is sent with the macros' own
+/-- **G17 on the model.** `content_type: None` is sent with the macros' own
 `Content-Type: application/json` and read back as `Some("application/json")`. -/
-theorem f17_witness :
+theorem g17_witness :
     let v : ReqVal := { header := [none], raw := [[1, 2, 3]] }
     let m : HttpRequest := ⟨bs "POST", bs "https://h/_synthetic/upload",
       [(contentType, applicationJson)], [1, 2, 3]⟩
-    dF17.macroAccepts = true ∧ dF17.testsPass = true ∧ newOk dF17.history = true
-    ∧ tryIntoHttpRequest refForm noJson anyUri dF17 v (bs "https://h") .none [] = .ok m
+    dG17.macroAccepts = true ∧ dG17.testsPass = true ∧ newOk dG17.history = true
+    ∧ tryIntoHttpRequest refForm noJson anyUri dG17 v (bs "https://h") .none [] = .ok m
     ∧ deliver (bs "https://h") (bs "/_synthetic/upload") m = some ⟨bs "POST", [], m.headers, m.body, []⟩
-    ∧ tryFromHttpRequest refForm noJson dF17 ⟨bs "POST", [], m.headers, m.body, []⟩
+    ∧ tryFromHttpRequest refForm noJson dG17 ⟨bs "POST", [], m.headers, m.body, []⟩
         = .ok { header := [some applicationJson], raw := [[1, 2, 3]] } := by
   refine ⟨by decide, by decide, by decide, by rfl, by rfl, by rfl⟩
 
 /-- A mandatory `String` header field. -/
-def dF19 : ReqDesc :=
+def dG19 : ReqDesc :=
   ⟨bs "GET", .none, ⟨[bs "/_synthetic/h"], [], none, none⟩,
    [⟨bs "h", .header (bs "if-match") false Ty.str⟩]⟩
 
-/-- **F19 on the model.** The header value `é` (bytes C3 A9) is accepted when sending and is a
+/-- **G19 on the model.** The header value `é` (bytes C3 A9) is accepted when sending and is a
 deserialization error when receiving. -/
-theorem f19_witness :
+theorem g19_witness :
     let v : ReqVal := { header := [some [195, 169]] }
     let m : HttpRequest := ⟨bs "GET", bs "https://h/_synthetic/h", [(bs "if-match", [195, 169])], []⟩
-    tryIntoHttpRequest refForm noJson anyUri dF19 v (bs "https://h") .none [] = .ok m
+    tryIntoHttpRequest refForm noJson anyUri dG19 v (bs "https://h") .none [] = .ok m
     ∧ deliver (bs "https://h") (bs "/_synthetic/h") m = some ⟨bs "GET", [], m.headers, [], []⟩
-    ∧ (match tryFromHttpRequest refForm noJson dF19 ⟨bs "GET", [], m.headers, [], []⟩ with
+    ∧ (match tryFromHttpRequest refForm noJson dG19 ⟨bs "GET", [], m.headers, [], []⟩ with
        | .deser => true | _ => false) = true := by
   refine ⟨by rfl, by rfl, by rfl⟩
 
-/-- The full-strength statement is false: the F17 description and value satisfy all its
+/-- The full-strength statement is false: the G17 description and value satisfy all its
 hypotheses, and the receiving side reads a different value. -/
 theorem request_statement_false : ¬ RequestRoundtripStatement := by
   intro h
-  obtain ⟨hm, ht, hn, henc, hdel, hdec⟩ := f17_witness
-  have hcanon : ReqVal.Canon dF17 { header := [none], raw := [[1, 2, 3]] } :=
+  obtain ⟨hm, ht, hn, henc, hdel, hdec⟩ := g17_witness
+  have hcanon : ReqVal.Canon dG17 { header := [none], raw := [[1, 2, 3]] } :=
     ⟨trivial, trivial, trivial, ⟨rfl, trivial⟩, trivial, trivial⟩
-  have htext : ReqVal.Text refForm dF17 { header := [none], raw := [[1, 2, 3]] } := by
+  have htext : ReqVal.Text refForm dG17 { header := [none], raw := [[1, 2, 3]] } := by
     constructor
     · intro a ha; cases ha
     · intro f hf; cases hf
     · intro x hx; cases hx
     · intro x hx; cases hx
-  obtain ⟨tmpl, a, hsel, hd, hdec'⟩ := h refForm noJson anyUri dF17 _ (bs "https://h") .none [] _
+  obtain ⟨tmpl, a, hsel, hd, hdec'⟩ := h refForm noJson anyUri dG17 _ (bs "https://h") .none [] _
     refForm_lawful noJson_lawful hn
-    (by decide) hm ht hcanon htext henc
+    (by decide) (by decide) hm ht hcanon htext henc
   have : tmpl = bs "/_synthetic/upload" := by
-    have : selectPath dF17.history [] = .ok (bs "/_synthetic/upload") := by decide
+    have : selectPath dG17.history [] = .ok (bs "/_synthetic/upload") := by decide
     rw [this] at hsel
     cases hsel
     rfl
@@ -501,7 +519,7 @@ theorem request_statement_false : ¬ RequestRoundtripStatement := by
   have := congrArg (fun o => match o with | FromOut.ok v => v.header | _ => []) hdec'
   simp at this
 
-/-! ### F18: one level below, the field types -/
+/-! ### G18: one level below, the field types -/
 
 /-- Typed contents of a query field, for the string types the check's endpoints use. -/
 inductive QVal where
@@ -522,7 +540,7 @@ def QVal.codec : QVal → Codec (List Str)
   | .vecStr _ => Ty.qVecStr
 
 /-- Full strength: whatever a query field holds, what is written for it is read back as the same
-content. **False**: F18. -/
+content. **False**: G18. -/
 def QueryFieldTypesStatement : Prop := ∀ a : QVal, a.codec.Canon a.wire
 
 /-- All contents of `String`, `Option<String>` and `Vec<String>` query fields — every string, the
@@ -539,8 +557,8 @@ theorem query_field_types_partial (a : QVal) (h : a ≠ .optStr (some [])) : a.c
       have hs : s ≠ [] := fun e => h (by rw [e])
       simp [QVal.codec, QVal.wire, Codec.Canon, Ty.qOptStr, hs]
 
-/-- **F18 on the model.** `Some("")` is written as `name=` and read back as `None`. -/
-theorem f18_witness :
+/-- **G18 on the model.** `Some("")` is written as `name=` and read back as `None`. -/
+theorem g18_witness :
     (QVal.optStr (some [])).codec.norm (QVal.optStr (some [])).wire = some (QVal.optStr none).wire
     ∧ ¬ QueryFieldTypesStatement := by
   refine ⟨rfl, fun h => ?_⟩
@@ -561,22 +579,27 @@ example :
 /-! ### Responses -/
 
 /-- The property for responses at full strength (false for the same two reasons as for requests:
-F19, and F17's response-side twin — an `Option` header field named `Content-Type` that is `None`). -/
+G19, and G17's response-side twin — an `Option` header field named `Content-Type` that is `None`). -/
 def ResponseRoundtripStatement : Prop :=
   ∀ (J : JsonCodec) (d : RespDesc) (v : RespVal) (r : HttpResponse),
-    J.Lawful → d.macroAccepts = true → d.supported = true → d.status < 400 → v.Canon d →
+    J.Lawful → d.inModel = true → d.macroAccepts = true → d.supported = true → d.status < 400 →
+    v.Canon d →
     tryIntoHttpResponse J d v = .ok r → tryFromHttpResponse J d r = .ok v
 
-/-- For EVERY lawful JSON library, EVERY response description `#[response]` accepts (header, body,
-newtype-body, raw-body fields; `status = ..`; `manual_body_serde`) with a success status, and
-EVERY value made of wire forms of values: what `try_into_http_response` produces is read back by
-`try_from_http_response` as the same value, and re-encoding that gives the identical response
-(status, headers, body bytes). Excluded, spelled out: two header fields of one name (`hhn`),
-header values that are not visible ASCII (`hvis`, **F19**), and an `Option` header field named
-`Content-Type` holding `None` (`himp`, the response-side form of **F17**: the builder always sets
+/-- For EVERY lawful JSON library, EVERY response description within the model (`hmodel`: header,
+body, newtype-body, raw-body fields; `status = ..`; `manual_body_serde`; NO body field with
+`#[serde(flatten)]`) that `#[response]` accepts (`hmacro`), that carries a value (`hsup`: distinct
+field names, and not `manual_body_serde` without any body field) and has a success status
+(`hstatus`), and EVERY value made of wire forms of values: what `try_into_http_response` produces
+is read back by `try_from_http_response` as the same value (and so, the encoder being a function,
+re-encoding that gives the identical response: status, headers, body bytes — the second conjunct
+adds nothing beyond determinism). Excluded, spelled out: two header fields of one name (`hhn`),
+header values that are not visible ASCII (`hvis`, **G19**), and an `Option` header field named
+`Content-Type` holding `None` (`himp`, the response-side form of **G17**: the builder always sets
 `Content-Type: application/json`). -/
 theorem response_roundtrip_partial (J : JsonCodec) (d : RespDesc) (v : RespVal) (r : HttpResponse)
-    (hJ : J.Lawful) (hmacro : d.macroAccepts = true) (hsup : d.supported = true) (hstatus : d.status < 400)
+    (hJ : J.Lawful) (_hmodel : d.inModel = true) (hmacro : d.macroAccepts = true)
+    (hsup : d.supported = true) (hstatus : d.status < 400)
     (hcanon : v.Canon d)
     (hhn : (d.headerFields.map (·.header)).Nodup)
     (hvis : ∀ s, some s ∈ v.header → headerToStrOk s = true)
@@ -621,7 +644,8 @@ theorem response_statement_false : ¬ ResponseRoundtripStatement := by
   have henc : tryIntoHttpResponse noJson d v = .ok ⟨200, [(contentType, applicationJson)], [7]⟩ := by rfl
   have hdec : tryFromHttpResponse noJson d ⟨200, [(contentType, applicationJson)], [7]⟩
       = .ok { header := [some applicationJson], raw := [[7]] } := by rfl
-  have := h noJson d v _ noJson_lawful (by decide) (by decide) (by decide) ⟨⟨rfl, trivial⟩, trivial⟩ henc
+  have := h noJson d v _ noJson_lawful (by decide) (by decide) (by decide) (by decide)
+    ⟨⟨rfl, trivial⟩, trivial⟩ henc
   rw [hdec] at this
   have := congrArg (fun o => match o with | FromResp.ok v => v.header | _ => []) this
   simp [v] at this
@@ -643,7 +667,9 @@ def vAll : ReqVal :=
     header := [some (bs "en, fr"), none],
     body := [some (.str (bs "s\"")), none, some (.arr [.str (bs "1")])] }
 
-example :
+/-- The hypotheses of `request_roundtrip_partial` and `glue_no_panic`, discharged for `dAll` / `vAll`
+(a fact about one description, not a property theorem). -/
+theorem dAll_hypotheses :
     dAll.macroAccepts = true ∧ dAll.testsPass = true ∧ newOk dAll.history = true
     ∧ (∀ p ∈ allPaths dAll.history, ∀ b ∈ p, b = 47 ∨ segmentUnsafe b = false)
     ∧ (∀ p ∈ allPaths dAll.history, p.head? = some 47)
@@ -679,6 +705,33 @@ example :
     rw [this]
     decide
 
+/-- A non-trivial lawful JSON library exists: C01's canonical encoder (refusing what is not
+canonical) with the decoder of the canonical grammar — lawful by `Props/C01.decode_encode`. -/
+theorem canon_json_lawful : canonJson.Lawful := canonJson_lawful
+
+/-- What `try_into_http_request` writes for `vAll` through that JSON library. -/
+def mAll : HttpRequest :=
+  ⟨bs "PUT", bs "https://h/_synthetic/v1/all/a%2541%2Fb/x/%3F%23+%20%C3%A9?q=x%26y%3Dz&mq=&mq=1+2",
+   [(contentType, applicationJson), (bs "content-language", bs "en, fr"), (authorization, bs "Bearer tok")],
+   bs "{\"s\":\"s\\\"\",\"v\":[\"1\"]}"⟩
+
+/-- ALL hypotheses of `request_roundtrip_partial` at once, on a description with every kind of
+field and a JSON body: the form library `refForm` (lawful), the JSON library `canonJson` (lawful),
+`dAll`, `vAll`, and `henc` — the encoder does produce a message, `mAll`, computed by the kernel —,
+and hence the theorem's conclusion for them. -/
+example :
+    tryIntoHttpRequest refForm canonJson anyUri dAll vAll (bs "https://h") (.ifRequired (bs "tok")) [3]
+      = .ok mAll
+    ∧ ∃ tmpl a, selectPath dAll.history [3] = .ok tmpl ∧ deliver (bs "https://h") tmpl mAll = some a
+        ∧ tryFromHttpRequest refForm canonJson dAll a = .ok vAll := by
+  have henc : tryIntoHttpRequest refForm canonJson anyUri dAll vAll (bs "https://h")
+      (.ifRequired (bs "tok")) [3] = .ok mAll := by decide +kernel
+  obtain ⟨hm, ht, hn, hsafe, _, hhn, _, hcanon, htext, hvis, himp⟩ := dAll_hypotheses
+  obtain ⟨tmpl, a, h1, h2, h3, _⟩ :=
+    request_roundtrip_partial refForm canonJson anyUri dAll vAll (bs "https://h") (.ifRequired (bs "tok"))
+      [3] mAll refForm_lawful canon_json_lawful hn hsafe (by decide) hm ht hcanon htext hhn hvis himp henc
+  exact ⟨henc, tmpl, a, h1, h2, h3⟩
+
 /-- The same kinds of values through an endpoint without a JSON body, computed: the message the
 sender writes, what arrives after routing, what the receiver reads. -/
 example :
@@ -712,20 +765,85 @@ example :
 
 /-! ### The synthetic endpoints of the differential check satisfy the hypotheses -/
 
-/-- T1 for the glue: every request and response description the harness extracted from the
-stringified input of the real `#[request]` / `#[response]` macros is one the macro accepts, passes
+/-- T1 for the harness' OWN seven endpoints `glue::g_*` (not ruma's — those are
+`real_endpoints_under_model` below): every request and response description the harness extracted
+from the stringified input of the real `#[request]` / `#[response]` macros is within the model, one the macro accepts, passes
 the generated tests, has a history `VersionHistory::new` accepts with URI-safe paths starting in
 `/`, and distinct header names — so `request_roundtrip_partial`, `response_roundtrip_partial` and
 `glue_no_panic` apply to each of them. -/
 theorem generated_glue_descriptors_accepted :
     Generated.C16.glueReq.all (fun d =>
-      d.macroAccepts && d.testsPass && newOk d.history
+      d.inModel && d.macroAccepts && d.testsPass && newOk d.history
       && (allPaths d.history).all (fun p => p.head? == some 47 && p.all (fun b => b == 47 || !segmentUnsafe b))
       && decide (d.headerFields.map (·.header)).Nodup) = true
     ∧ Generated.C16.glueResp.all (fun d =>
+      d.inModel && d.macroAccepts && d.supported && decide (d.status < 400)
+      && decide (d.headerFields.map (·.header)).Nodup) = true := by
+  constructor <;> decide +kernel
+
+/-! ### The real endpoints
+
+`Generated.C16.realReq` / `realResp`: one entry per endpoint module of the five API crates, in the
+order of `Generated.C16.endpoints`; `some d` — the description read from the source text of the
+`#[request]` / `#[response]` struct (field order, `#[ruma_api(..)]` kind, header constant,
+`Option`-ness, serde name, `flatten`; method, authentication and history from the `METADATA`
+constant), with the identity codecs —, or `none` when the endpoint has no macro-generated
+conversions or the parser does not understand its definition (`Generated.C16.realOutside`; nothing
+is claimed for those). None of the predicates decided below looks at a codec. -/
+
+/-- Every real endpoint with a description: `#[request]` / `#[response]` accept it
+(`macroAccepts`), the generated `#[test]`s pass (`testsPass`: path fields are the placeholders in
+order, no body on `GET`, distinct names), its history is one `VersionHistory::new` accepts with
+paths made of `/` and URI-safe bytes, no two header fields share a header name (`hhn`), the
+response carries a value and has a success status — i.e. the hypotheses `hmacro`, `htests`, `hnew`,
+`hsafe`/`hslash`, `hhn`, `hsup`, `hstatus` of `request_roundtrip_partial`,
+`response_roundtrip_partial` and `glue_no_panic` hold for each of them, for whatever codecs their
+field types have. (`hmodel` is `real_flatten_endpoints`, `himp` is `real_g17_endpoints`.) -/
+theorem real_endpoints_under_model :
+    (Generated.C16.realReq.filterMap id).all (fun d =>
+      d.macroAccepts && d.testsPass && newOk d.history
+      && (allPaths d.history).all (fun p => p.head? == some 47 && p.all (fun b => b == 47 || !segmentUnsafe b))
+      && decide (d.headerFields.map (·.header)).Nodup) = true
+    ∧ (Generated.C16.realResp.filterMap id).all (fun d =>
       d.macroAccepts && d.supported && decide (d.status < 400)
       && decide (d.headerFields.map (·.header)).Nodup) = true := by
   constructor <;> decide +kernel
+
+/-- The position of every entry of a list satisfying `p`. -/
+def indicesWhere {α} (p : α → Bool) (l : List α) : List Nat :=
+  (l.zipIdx.filter (fun x => p x.1)).map (·.2)
+
+/-- Which real endpoints are outside the model: those without a description are exactly
+`Generated.C16.realOutside`, and those whose request or response has a flattened body field
+(`inModel = false`) are exactly `Generated.C16.realFlatten` — for all others `hmodel` holds. -/
+theorem real_flatten_endpoints :
+    Generated.C16.realReq.length = Generated.C16.realResp.length
+    ∧ indicesWhere (fun d : Option ReqDesc => d.isNone) Generated.C16.realReq = Generated.C16.realOutside
+    ∧ indicesWhere (fun d : Option RespDesc => d.isNone) Generated.C16.realResp = Generated.C16.realOutside
+    ∧ indicesWhere (fun x : Option ReqDesc × Option RespDesc =>
+          x.1.any (fun d => !d.inModel) || x.2.any (fun d => !d.inModel))
+        (Generated.C16.realReq.zip Generated.C16.realResp) = Generated.C16.realFlatten := by
+  refine ⟨by decide +kernel, by decide +kernel, by decide +kernel, by decide +kernel⟩
+
+/-- Which real endpoints have the shape of finding G17 — an `Option` header field whose header the
+generated code sets by itself: exactly the requests listed in `Generated.C16.realReqG17` and the
+responses listed in `Generated.C16.realRespG17` (the call sites `findings/C16.json` names). -/
+theorem real_g17_endpoints :
+    indicesWhere (fun d : Option ReqDesc => d.any (fun d => !d.g17Fields.isEmpty)) Generated.C16.realReq
+      = Generated.C16.realReqG17
+    ∧ indicesWhere (fun d : Option RespDesc => d.any (fun d => !d.g17Fields.isEmpty)) Generated.C16.realResp
+      = Generated.C16.realRespG17 := by
+  constructor <;> decide +kernel
+
+/-- …and for every description WITHOUT that shape (any codecs, any value made of wire forms of
+values, any token) the exclusion `himp` of `request_roundtrip_partial` /
+`response_roundtrip_partial` is met: finding G17 concerns the listed endpoints only. -/
+theorem g17_free_himp (d : ReqDesc) (v : ReqVal) (sat : SendAccessToken) (p : RespDesc) (w : RespVal) :
+    (d.g17Fields = [] → v.Canon d →
+      ∀ f, (f, none) ∈ d.headerFields.zip v.header → f.header ∉ implicitHeaders d sat)
+    ∧ (p.g17Fields = [] → w.Canon p →
+      ∀ f, (f, none) ∈ p.headerFields.zip w.header → f.header ≠ contentType) :=
+  ⟨g17_free_himp' d v sat, respG17_free_himp' p w⟩
 
 #print axioms generated_histories_valid
 #print axioms selectPath_spec
@@ -749,15 +867,20 @@ theorem generated_glue_descriptors_accepted :
 #print axioms glue_no_panic
 #print axioms method_rule
 #print axioms empty_body_is_empty_object
-#print axioms f17_witness
-#print axioms f19_witness
+#print axioms g17_witness
+#print axioms g19_witness
 #print axioms request_statement_false
 #print axioms query_field_types_partial
-#print axioms f18_witness
+#print axioms g18_witness
 #print axioms response_roundtrip_partial
 #print axioms response_error_path
 #print axioms response_statement_false
 
 #print axioms generated_glue_descriptors_accepted
+#print axioms canon_json_lawful
+#print axioms real_endpoints_under_model
+#print axioms real_flatten_endpoints
+#print axioms real_g17_endpoints
+#print axioms g17_free_himp
 
 end Ruma.Props.C16
